@@ -42,7 +42,7 @@ PROPS = {
     "C04": P_(["scheduler", "values", "dagproto", "dagadmin", "decorators"], ["config"], dict(SW)),
     "C05": P_(["scheduler", "nodeexec", "decorators"], ["config"], dict(SW)),
     "C06": P_(["scheduler", "digraph", "dagproto", "graphbuild"], ["config", "graph_build", "priority_table", "conformance"], dict(SW)),
-    "C07": P_(["digraph", "dagproto", "nodeexec", "dagadmin", "graphbuild"], ["priority_table", "config", "graph_build", "differential"]),
+    "C07": P_(["digraph", "dagproto", "nodeexec", "dagadmin", "graphbuild"], ["priority_table", "config", "graph_build", "differential", "conformance"]),
     "C08": P_(["scheduler", "dagproto", "dagadmin", "graphbuild"], ["config", "graph_build"], dict(SW)),
     "C09": P_(["scheduler", "values", "graphbuild"], ["graph_build", "failure_recovery", "conformance"], dict(SW, fail=True, active=True)),
     "C10": P_(["scheduler", "values", "graphbuild", "nodebuild", "subdag"], ["programs", "reference_matrix"], dict(SW, active=True)),
